@@ -189,6 +189,10 @@ func (e *metaEnv) writeTree(tree []treeEntry, bulk int) (storage.Store, string) 
 func (e *metaEnv) newBundle(stores context2.Stores, repo, id string, consumable storage.Store) *core.Bundle {
 	bd := model.NewBundleDescriptor(model.Message("verif"), model.BundleContributor(model.Contributor{Name: "v", Email: "v@example.com"}))
 	bd.LeafSize = uint32(e.lambda)
+	if k, ok := e.rev[id]; ok {
+		// descriptor timestamps run against the id order: listings are ordered by id, never by time
+		bd.Timestamp = time.Unix(1700000000-int64(k)*60, 0).UTC()
+	}
 	opts := []core.BundleOption{
 		core.Repo(repo), core.ContextStores(stores), core.BundleDescriptor(bd), core.Logger(zap.NewNop()),
 		core.ConcurrentFileUploads(e.conc), core.ConcurrentFileDownloads(e.conc), core.ConcurrentFilelistDownloads(e.conc),
